@@ -418,6 +418,15 @@ def run_job(job):
                 raise Undecided("timeout after %ds" % (job.timeout * TIME_SCALE))
             results = parse_cbmc_text(out2)
             msgs = [l for l in out2.splitlines() if "ignoring" in l]
+        if results is None and not to:
+            # transient tool failure (seen under heavy machine load: the external SAT solver process dies, rc=15): one retry
+            time.sleep(2)
+            rc, out, err, secs3, to = sh(cmd, timeout=job.timeout * TIME_SCALE, mem_kb=MEM_KB, cwd=workdir, env={"TMPDIR": workdir})
+            res["solver_secs"] = round(res["solver_secs"] + secs3, 2)
+            res["note"] = (res.get("note") or "") + " [second attempt after a tool failure without verdicts]"
+            if to:
+                raise Undecided("timeout after %ds" % (job.timeout * TIME_SCALE))
+            results, status, msgs = parse_cbmc(out)
         if results is None:
             raise Undecided("cbmc gave no result list (rc=%s): %s" % (rc, (" | ".join(msgs) or err or out)[-1200:]))
         if any("ignoring" in m for m in msgs):
